@@ -410,3 +410,31 @@ def encoding_agreement(ctx, clause, kinds=('text', 'json')):
                         detail=f'written as {sorted(wenc)} but read as {enc}: text does not round-trip '
                                f'(a leading BOM is dropped by utf-8-sig; non-ASCII text breaks under a non-UTF-8 locale default)')
     return n_ob
+
+
+def opener_default_mode(ctx, clause, opener):
+    """The opener uses the handle's own (current) mode when none is requested: the `accessmode` parameter defaults
+    to None and, exactly in that case, is bound to self._accessmode at call time — not to something cached when the
+    handle was constructed.  Path conditions; if-statement or conditional expression, either polarity."""
+    from ..pathcond import runs_under
+    from ._trunc import folder
+    from .C20 import fold
+    d = opener.param_defaults().get('accessmode')
+    ok = isinstance(d, ast.Constant) and d.value is None
+    hit = False
+    for v, st in defs_of(opener.node, 'accessmode'):
+        e = v
+        while isinstance(e, ast.IfExp):
+            try:
+                e = e.body if fold(e.test, {'accessmode': None}) else e.orelse
+            except Exception:
+                break
+        if norm(e) in ('self._accessmode', 'self.accessmode'):
+            when_none = runs_under(opener, st, folder({'accessmode': None}, opener))
+            when_given = runs_under(opener, st, folder({'accessmode': 'r+'}, opener))
+            if when_none is not False and (when_given is False or isinstance(v, ast.IfExp)):
+                hit = True
+    ctx.decide(ok and hit, 'R-FLOW', clause, opener, None, 'opener-default-mode',
+               'the opener uses the handle\'s own current mode when none is requested',
+               detail='default mode of the opener is not the handle\'s current mode (e.g. mode strings cached at '
+                      'construction: after `a.accessmode = ...` the maps are still opened in the old mode)')
